@@ -34,7 +34,7 @@ HS0 == [ H |-> 0,            \* allocations alive when the running cycle woke
 Init == h = [EmptyHeap EXCEPT !.pc = PacingQ] /\ hist = <<>> /\ hs = HS0
 
 Running == h.phase # "Dropped"
-AccNow == Acc(h)
+AccNow == Ordinary(h)
 WorkFactorsZero == PacingQ.mf = 0 /\ PacingQ.tf = 0 /\ PacingQ.kf = 0 /\ PacingQ.df = 0 /\ PacingQ.ff = 0
 \* the largest per-object work path, in 16ths
 R == LET a == PacingQ.mf + PacingQ.tf + PacingQ.kf
